@@ -415,6 +415,22 @@ class SymEx:
                 a = args[0]
                 self.write(st, a[1], a[2], [_thaw(e) for e in a[3]], mk_bin(op, cur, rhs), loc)
                 return ret(("unit",))
+        # lazy adaptors are values; `next` on them (or on an iterator that summarise_loop marked as
+        # 'in some state', ('giter', it)) yields a *generic element* of the comprehension they denote
+        if generic in LAZY and len(args) == 2 and strip_refs(args[1])[0] == "agg" and strip_refs(args[1])[1] == "closure":
+            src = strip_refs(args[0])
+            if src[0] in ("lazy", "giter") or _table_iter(src) is not None:
+                return ret(("lazy", LAZY[generic], src[1] if src[0] == "giter" else src, strip_refs(args[1])))
+        if generic == "std::iter::IntoIterator::into_iter" and args and strip_refs(args[0])[0] in ("lazy", "giter"):
+            return ret(strip_refs(args[0]))
+        if generic == "std::iter::Iterator::next" and len(args) == 1 and args[0][0] == "addr":
+            cur = self.read_addr(st, args[0])
+            if cur[0] in ("lazy", "giter"):
+                outs = []
+                for elem, st2 in self._generic(cur[1] if cur[0] == "giter" else cur, st.clone(), depth):
+                    outs += ret(("agg", "std::option::Option", "Some", (elem,)), st2)
+                outs += ret(("agg", "std::option::Option", "None", ()), st.clone())
+                return outs
         # iterators over compile-time tables
         if generic in ("std::iter::IntoIterator::into_iter",) or callee.endswith("::iter") and "slice" in callee:
             src = args[0] if args else None
@@ -482,6 +498,74 @@ class SymEx:
         return ret(e)
 
 
+LAZY = {"std::iter::Iterator::map": "map", "std::iter::Iterator::flat_map": "flat_map",
+        "std::iter::Iterator::filter_map": "filter_map", "std::iter::Iterator::filter": "filter"}
+
+
+def _generic(self, it, st, depth):
+    """Generic elements of an iterator value: yields (element expression, state).  A constant range
+    contributes a generator symbol ('sym', 'gen#id:lo:hi') (see gen_range); `map` applies the closure, `flat_map`
+    takes a generic element of the closure's result, `filter_map` / `filter` keep the paths of the
+    closure that answer Some / true (recording the decision as a path condition when symbolic)."""
+    it = strip_refs(it)
+    if it[0] == "giter":
+        it = it[1]
+    if it[0] == "agg" and it[1].endswith("ops::Range") and len(it[3]) == 2 and all(x[0] == "const" for x in it[3]):
+        self.ngen = getattr(self, "ngen", 0) + 1
+        yield ("sym", "gen#%d:%d:%d" % (self.ngen, it[3][0][1], it[3][1][1])), st
+        return
+    if it[0] != "lazy":
+        raise Unsupported("generic element of %r" % (it[:2],))
+    kind, inner, fval = it[1], it[2], it[3]
+    for x, st1 in _generic(self, inner, st, depth):
+        arg = ("ref", x) if kind == "filter" else x
+        for r, st2 in self._call_closure(fval, [arg], st1, depth):
+            if kind == "map":
+                yield r, st2
+            elif kind == "flat_map":
+                yield from _generic(self, r, st2, depth)
+            elif kind == "filter_map":
+                o = strip_refs(r)
+                if o[0] == "agg" and o[2] == "Some":
+                    yield o[3][0], st2
+                elif o[0] == "agg" and o[2] == "None":
+                    continue
+                else:
+                    d = ("discr", o, "std::option::Option")
+                    st2.conds.append((d, [1], False, [0, 1]))
+                    st2.events.append(("cond", None, (d, [1], False, [0, 1])))
+                    yield mk_field(("downcast", o, "Some"), "0"), st2
+            else:
+                if r == ("const", True):
+                    yield x, st2
+                elif r == ("const", False):
+                    continue
+                else:
+                    st2.conds.append((r, [1], False, [0, 1]))
+                    st2.events.append(("cond", None, (r, [1], False, [0, 1])))
+                    yield x, st2
+
+
+def _call_closure(self, fval, args, st, depth):
+    """Run a closure value on argument values: yields (result, state) per returning path."""
+    fval = strip_refs(fval)
+    if not (fval[0] == "agg" and fval[1] == "closure" and self.facts.has_body(fval[2])) or depth > 6:
+        raise Unsupported("call of a non-closure value")
+    cb = self.body_of(fval[2])
+    if cb.arg_count != 1 + len(args):
+        raise Unsupported("closure arity")
+    env = {1: ("ref", fval) if cb.local_ty(1).startswith("&") else fval}
+    for i, a in enumerate(args):
+        env[2 + i] = a
+    for kind, ebb, st2, cfid in self._run_fn(cb, 0, env, st.clone(), set(), set(), None, depth + 1):
+        if kind == "return":
+            yield st2.store[cfid].get(0, ("unit",)), st2
+
+
+SymEx._generic = _generic
+SymEx._call_closure = _call_closure
+
+
 def _freeze(el, fe):
     if el["k"] == "index":
         return ("index", fe.local(el["local"]))
@@ -540,6 +624,15 @@ def summarise_loop(facts, body, ex, header, blocks, stop=(), inline=None):
         if t["k"] == "call":
             assigned.add(t["dest"]["local"])
     env = {l: ("sym", l) for l in carried}
+    # a carried iterator whose initial value is a constant range or a lazy chain over one is 'that
+    # iterator in some state': `next` on it yields a generic element
+    rd = body.reaching()
+    for l in carried:
+        ds = [(dloc, k) for dloc, k in rd.defs(l, (header, 0)) if k != "borrow" and (k == "entry" or dloc[0] not in blocks)]
+        if len(ds) == 1 and ds[0][1] == "whole":
+            v = _lazy_of_expr(ex._def_expr(l, ds[0][0]))
+            if v is not None:
+                env[l] = ("giter", v)
 
     def fallback(l):
         if l in assigned and l not in carried:
@@ -549,6 +642,32 @@ def summarise_loop(facts, body, ex, header, blocks, stop=(), inline=None):
     back = {(a, header) for a in body.pred.get(header, []) if a in blocks}
     paths = sx.run(body, header, env, stop=set(stop), fallback=fallback, stop_edges=back)
     return carried, paths
+
+
+def gen_range(e):
+    """('sym', 'gen#id:lo:hi') -> (id, lo, hi); None for anything else."""
+    if isinstance(e, tuple) and len(e) == 2 and e[0] == "sym" and isinstance(e[1], str) and e[1].startswith("gen#"):
+        i, lo, hi = e[1][4:].split(":")
+        return int(i), int(lo), int(hi)
+    return None
+
+
+def _lazy_of_expr(e):
+    """Value-numbered expression of an iterator -> the executor's iterator value, if it is a constant
+    range or a chain of lazy adaptors with closure aggregates over one."""
+    e = strip_refs(e)
+    if e[0] == "agg" and e[1].endswith("ops::Range") and len(e[3]) == 2 and all(x[0] == "const" for x in e[3]):
+        return e
+    if e[0] == "call" and e[1].endswith("::into_iter") and len(e[2]) == 1:
+        return _lazy_of_expr(e[2][0])
+    if e[0] == "call" and len(e[2]) == 2:
+        kind = next((k for n, k in LAZY.items() if e[1] == n or e[1].endswith("::" + n.rsplit("::", 1)[-1]) and "iter" in e[1]), None)
+        f = strip_refs(e[2][1])
+        if kind and f[0] == "agg" and f[1] == "closure":
+            inner = _lazy_of_expr(e[2][0])
+            if inner is not None:
+                return ("lazy", kind, inner, f)
+    return None
 
 
 # ---- normal forms shared by the loop rules ------------------------------------------------------
